@@ -5,12 +5,16 @@
 
 namespace qsx {
 
-static void row_interval(const Row &r, Q &lo, Q &up) {
+// A row's right-hand side is an ordinary number for the library whatever its magnitude (only column
+// bounds and the range -- the logical's upper bound -- are compared with the in-band infinity), so the
+// infinite sides are flags, never inferred from the size of rhs.
+static void row_interval(const Row &r, Q &lo, Q &up, bool &lo_inf, bool &up_inf) {
+  lo_inf = up_inf = false;
   switch (r.sense) {
-  case 'L': lo = NINF(); up = r.rhs; break;
-  case 'G': lo = r.rhs; up = PINF(); break;
+  case 'L': lo = NINF(); up = r.rhs; lo_inf = true; break;
+  case 'G': lo = r.rhs; up = PINF(); up_inf = true; break;
   case 'E': lo = r.rhs; up = r.rhs; break;
-  default: lo = r.rhs; up = r.rhs + r.range; break;   // 'R'
+  default: lo = r.rhs; up = r.rhs + r.range; up_inf = is_pinf(r.range); break;   // 'R'
   }
 }
 static Q row_activity(const Row &r, const std::vector<Q> &x) {
@@ -29,9 +33,10 @@ bool primal_feasible(const Model &m, const std::vector<Q> &x, std::string *why) 
   }
   for (int i = 0; i < m.m(); i++) {
     Q lo, up, a = row_activity(m.rows[i], x);
-    row_interval(m.rows[i], lo, up);
-    if (!is_ninf(lo) && a < lo) return W(strprintf("row %d (%c): activity %s below %s", i, m.rows[i].sense, qstr(a).c_str(), qstr(lo).c_str()));
-    if (!is_pinf(up) && a > up) return W(strprintf("row %d (%c): activity %s above %s", i, m.rows[i].sense, qstr(a).c_str(), qstr(up).c_str()));
+    bool li, ui;
+    row_interval(m.rows[i], lo, up, li, ui);
+    if (!li && a < lo) return W(strprintf("row %d (%c): activity %s below %s", i, m.rows[i].sense, qstr(a).c_str(), qstr(lo).c_str()));
+    if (!ui && a > up) return W(strprintf("row %d (%c): activity %s above %s", i, m.rows[i].sense, qstr(a).c_str(), qstr(up).c_str()));
   }
   return true;
 }
@@ -50,11 +55,12 @@ static bool dual_bound(const Model &m, const std::vector<Q> &pi, Q &bound, std::
     for (auto &kv : r.a) d[kv.first] -= pi[i] * kv.second;
     if (pi[i] == 0) continue;
     Q lo, up;
-    row_interval(r, lo, up);
+    bool li, ui;
+    row_interval(r, lo, up, li, ui);
     // MIN wants the smallest value of pi_i*act, MAX the largest
     bool use_lo = mini ? (pi[i] > 0) : (pi[i] < 0);
     const Q &side = use_lo ? lo : up;
-    if (!is_fin(side)) return W(strprintf("dual sign condition violated on row %d (%c): pi=%s leans on the infinite side", i, r.sense, qstr(pi[i]).c_str()));
+    if (use_lo ? li : ui) return W(strprintf("dual sign condition violated on row %d (%c): pi=%s leans on the infinite side", i, r.sense, qstr(pi[i]).c_str()));
     bound += pi[i] * side;
   }
   for (int j = 0; j < m.n(); j++) {
@@ -93,9 +99,10 @@ static bool farkas_oriented(const Model &m, const std::vector<Q> &y, std::string
     const Row &r = m.rows[i];
     for (auto &kv : r.a) z[kv.first] += y[i] * kv.second;
     Q lo, up;
-    row_interval(r, lo, up);
+    bool li, ui;
+    row_interval(r, lo, up, li, ui);
     const Q &side = y[i] > 0 ? lo : up;
-    if (!is_fin(side)) return W(strprintf("multiplier of row %d (%c) has the wrong sign", i, r.sense));
+    if (y[i] > 0 ? li : ui) return W(strprintf("multiplier of row %d (%c) has the wrong sign", i, r.sense));
     L += y[i] * side;
   }
   for (int j = 0; j < m.n(); j++) {
@@ -131,9 +138,10 @@ bool verify_ray(const Model &m, const std::vector<Q> &x, const std::vector<Q> &d
   }
   for (int i = 0; i < m.m(); i++) {
     Q lo, up, a = row_activity(m.rows[i], d);
-    row_interval(m.rows[i], lo, up);
-    if (!is_ninf(lo) && a < 0) return W("ray leaves a row from below");
-    if (!is_pinf(up) && a > 0) return W("ray leaves a row from above");
+    bool li, ui;
+    row_interval(m.rows[i], lo, up, li, ui);
+    if (!li && a < 0) return W("ray leaves a row from below");
+    if (!ui && a > 0) return W("ray leaves a row from above");
   }
   if (m.objsense >= 0 ? !(cd < 0) : !(cd > 0)) return W("ray does not improve the objective");
   return true;
